@@ -12,11 +12,14 @@ explicit list; the theorems quantify over every permutation of it.
   filled (`sort.Ints`, `OrderedMap` + `sort.StringsByInt`);
 * `population_order_independent` — populating the same fields in any order gives the same
   observation;
-* `readonly_ops_pure_partial` / `readonly_ops_pure_witness` — Pack, MarshalJSON, Describe,
-  Clone and GetFields leave every observation alone once the bitmap field has been
-  materialised; the *first* of them on a message that has not packed or unpacked yet adds
-  field 1 to what GetFields reports (the full statement is false in the model and in the
-  code: known finding, see KNOWN_FINDINGS.txt);
+* `readonly_ops_pure` — full strength, no hypothesis: at every point of every history Pack,
+  MarshalJSON, Describe, Clone and GetFields change nothing that any later history observes
+  through GetFields, values, Pack and JSON (the bitmap field is marked from `NewMessage` on:
+  `marked_run`); `readonly_ops_describe_ids` — nor the field list Describe prints;
+* `readonly_ops_describeStatement` / `describe_stale_bitmap_witness` /
+  `readonly_ops_describe_partial` — what remains (KF10): the bitmap lines of Describe show
+  the bitmap object as the last Pack / Unpack left it, so a Pack changes them unless the
+  message was packed since its last write;
 * `clone_independent` — a clone shares nothing with its original.
 -/
 import Iso8583.Props.C14
@@ -380,147 +383,316 @@ def IsReadOnly : Op → Prop
   | .pack | .json | .describe | .clone | .getFields => True
   | _ => False
 
-/-- equal except for the byte content of the bitmap field object (which every Pack
-recomputes before it is used) -/
-def SameButBitmap (o o' : MsgObj) : Prop :=
-  o.fields = o'.fields ∧ o.present = o'.present ∧ o.cachedBitmap = o'.cachedBitmap
+/-- the bitmap field is marked: true of a new message and kept by every operation
+(`marked_step`, `marked_run`) -/
+def Marked1 (o : MsgObj) : Prop := o.present.contains 1 = true
 
-theorem SameButBitmap.refl (o : MsgObj) : SameButBitmap o o := ⟨rfl, rfl, rfl⟩
+/-- equal except for the bitmap *object*: whether it is cached, and its bytes (which every
+Pack recomputes before they are used, and which only `Describe` shows as they are) -/
+def SameButBitmap (o o' : MsgObj) : Prop := o.fields = o'.fields ∧ o.present = o'.present
 
-theorem same_eq {o o' : MsgObj} (h : SameButBitmap o o') : o' = { o with bitmap := o'.bitmap } := by
-  obtain ⟨h1, h2, h3⟩ := h
-  cases o; cases o'; simp_all
+theorem SameButBitmap.refl (o : MsgObj) : SameButBitmap o o := ⟨rfl, rfl⟩
 
-theorem pack_bitmap_irrelevant (spec : MsgSpec) (o : MsgObj) (b : Bytes) :
-    ({ o with bitmap := b } : MsgObj).pack spec = o.pack spec := by
-  obtain ⟨fs, pr, cb, bm⟩ := o
-  cases cb <;> rfl
+theorem markId_of_contains {i : Nat} {l : List Nat} (h : l.contains i = true) : markId i l = l := by
+  unfold markId; rw [h]; rfl
 
-theorem pack_eq_of_same (spec : MsgSpec) {o o' : MsgObj} (h : SameButBitmap o o') :
+/-- Pack does not look at the bitmap object it finds: it caches it, resets it and fills it -/
+theorem pack_mk (spec : MsgSpec) (fs : List (Nat × FieldObj)) (pr : List Nat) (h1 : pr.contains 1 = true)
+    (cb cb' : Bool) (bm bm' : Bytes) :
+    (⟨fs, pr, cb, bm⟩ : MsgObj).pack spec = (⟨fs, pr, cb', bm'⟩ : MsgObj).pack spec := by
+  cases cb <;> cases cb' <;>
+    simp [MsgObj.pack, MsgObj.touchBitmap, MsgObj.packOrd, MsgObj.content, MsgObj.get, markId_of_contains h1]
+
+theorem pack_eq_of_same (spec : MsgSpec) {o o' : MsgObj} (h : SameButBitmap o o') (h1 : Marked1 o) :
     o'.pack spec = o.pack spec := by
-  rw [same_eq h]; exact pack_bitmap_irrelevant spec o _
+  obtain ⟨fs, pr, cb, bm⟩ := o
+  obtain ⟨fs', pr', cb', bm'⟩ := o'
+  obtain ⟨hf, hp⟩ := h
+  simp only at hf hp
+  subst hf; subst hp
+  exact pack_mk spec fs pr h1 cb' cb bm' bm
 
-theorem obs_of_same (spec : MsgSpec) {o o' : MsgObj} (h : SameButBitmap o o') : o'.obs spec = o.obs spec := by
-  have hp := pack_eq_of_same spec h
+theorem obs_of_same (spec : MsgSpec) {o o' : MsgObj} (h : SameButBitmap o o') (h1 : Marked1 o) :
+    o'.obs spec = o.obs spec := by
+  have hp := pack_eq_of_same spec h h1
   unfold MsgObj.obs MsgObj.json MsgObj.sortedIds
   rw [hp]
-  simp only [MsgObj.content, MsgObj.get, h.1, h.2.1]
+  simp only [MsgObj.content, MsgObj.get, h.1, h.2]
 
 theorem jsonDecode_same (spec : MsgSpec) (doc : List (Nat × Value)) :
-    ∀ (fs : List (Nat × FieldObj)) (pr : List Nat) (cb : Bool) (bm bm' : Bytes),
+    ∀ (fs : List (Nat × FieldObj)) (pr : List Nat) (cb cb' : Bool) (bm bm' : Bytes),
       SameButBitmap ((⟨fs, pr, cb, bm⟩ : MsgObj).jsonDecode spec doc).1
-        ((⟨fs, pr, cb, bm'⟩ : MsgObj).jsonDecode spec doc).1 := by
+        ((⟨fs, pr, cb', bm'⟩ : MsgObj).jsonDecode spec doc).1 := by
   induction doc with
-  | nil => intro fs pr cb bm bm'; exact ⟨rfl, rfl, rfl⟩
+  | nil => intro fs pr cb cb' bm bm'; exact ⟨rfl, rfl⟩
   | cons p rest ih =>
-    intro fs pr cb bm bm'
+    intro fs pr cb cb' bm bm'
     obtain ⟨id, v⟩ := p
     unfold MsgObj.jsonDecode
     by_cases hid : id = 1
     · subst hid
       simp only [if_true]
       cases v with
-      | bin d => exact ih _ _ _ _ _
-      | str _ => exact ⟨rfl, rfl, rfl⟩
-      | num _ => exact ⟨rfl, rfl, rfl⟩
-      | hexv _ => exact ⟨rfl, rfl, rfl⟩
-      | comp _ => exact ⟨rfl, rfl, rfl⟩
+      | bin d => exact ih _ _ _ _ _ _
+      | str _ => exact ⟨rfl, rfl⟩
+      | num _ => exact ⟨rfl, rfl⟩
+      | hexv _ => exact ⟨rfl, rfl⟩
+      | comp _ => exact ⟨rfl, rfl⟩
     · simp only [hid, if_false]
       unfold MsgObj.marshalField MsgObj.get
       cases spec.fieldOf id with
-      | none => exact ⟨rfl, rfl, rfl⟩
+      | none => exact ⟨rfl, rfl⟩
       | some f =>
         dsimp only
         by_cases hs : f.shapeOK v = true
         · simp only [hs, if_true]
-          exact ih _ _ _ _ _
+          exact ih _ _ _ _ _ _
         · simp only [hs, Bool.false_eq_true, if_false]
-          exact ⟨rfl, rfl, rfl⟩
+          exact ⟨rfl, rfl⟩
 
-theorem step_same_mk (spec : MsgSpec) (op : Op) (fs : List (Nat × FieldObj)) (pr : List Nat) (cb : Bool)
-    (bm bm' : Bytes) :
-    SameButBitmap ((⟨fs, pr, cb, bm⟩ : MsgObj).step spec op).1 ((⟨fs, pr, cb, bm'⟩ : MsgObj).step spec op).1 := by
+theorem step_same_mk (spec : MsgSpec) (op : Op) (fs : List (Nat × FieldObj)) (pr : List Nat)
+    (h1 : pr.contains 1 = true) (cb cb' : Bool) (bm bm' : Bytes) :
+    SameButBitmap ((⟨fs, pr, cb, bm⟩ : MsgObj).step spec op).1 ((⟨fs, pr, cb', bm'⟩ : MsgObj).step spec op).1 := by
   cases op with
   | mti s =>
     simp only [MsgObj.step, MsgObj.setField, MsgObj.get]
-    cases spec.fieldOf 0 <;> exact ⟨rfl, rfl, rfl⟩
+    cases spec.fieldOf 0 <;> exact ⟨rfl, rfl⟩
   | setField id b =>
     simp only [MsgObj.step, MsgObj.setField, MsgObj.get]
     by_cases hid : id = 1
-    · simp only [hid, if_true]; exact ⟨rfl, rfl, rfl⟩
+    · simp only [hid, if_true]; exact ⟨rfl, rfl⟩
     · simp only [hid, if_false]
-      cases spec.fieldOf id <;> exact ⟨rfl, rfl, rfl⟩
+      cases spec.fieldOf id <;> exact ⟨rfl, rfl⟩
   | marshalField id v =>
     simp only [MsgObj.step, MsgObj.marshalField, MsgObj.get]
     cases spec.fieldOf id with
-    | none => exact ⟨rfl, rfl, rfl⟩
+    | none => exact ⟨rfl, rfl⟩
     | some f =>
       dsimp only
       by_cases hs : f.shapeOK v = true
-      · simp only [hs, if_true]; exact ⟨rfl, rfl, rfl⟩
-      · simp only [hs, Bool.false_eq_true, if_false]; exact ⟨rfl, rfl, rfl⟩
-  | jsonDecode doc => exact jsonDecode_same spec doc fs pr cb bm bm'
+      · simp only [hs, if_true]; exact ⟨rfl, rfl⟩
+      · simp only [hs, Bool.false_eq_true, if_false]; exact ⟨rfl, rfl⟩
+  | jsonDecode doc => exact jsonDecode_same spec doc fs pr cb cb' bm bm'
   | unpack b => exact SameButBitmap.refl _
   | unsetField id =>
     simp only [MsgObj.step, MsgObj.unsetField]
-    split <;> exact ⟨rfl, rfl, rfl⟩
+    split
+    · split <;> exact ⟨rfl, rfl⟩
+    · exact ⟨rfl, rfl⟩
   | unsetPath id path =>
     simp only [MsgObj.step, MsgObj.unsetPath, MsgObj.unsetField, MsgObj.get]
     by_cases hp : pr.contains id = true
     · simp only [hp, if_true]
       by_cases hpe : path.isEmpty = true
-      · simp only [hpe, if_true]; exact ⟨rfl, rfl, rfl⟩
+      · simp only [hpe, if_true]; split <;> exact ⟨rfl, rfl⟩
       · simp only [hpe, Bool.false_eq_true, if_false]
         cases spec.fieldOf id with
-        | none => exact ⟨rfl, rfl, rfl⟩
+        | none => exact ⟨rfl, rfl⟩
         | some f =>
           dsimp only
-          cases f.unsetSubs ((lookupId id fs).getD f.fresh) path <;> exact ⟨rfl, rfl, rfl⟩
-    · simp only [hp, Bool.false_eq_true, if_false]; exact ⟨rfl, rfl, rfl⟩
+          cases f.unsetSubs ((lookupId id fs).getD f.fresh) path <;> exact ⟨rfl, rfl⟩
+    · simp only [hp, Bool.false_eq_true, if_false]; exact ⟨rfl, rfl⟩
   | pack =>
-    have := pack_bitmap_irrelevant spec ⟨fs, pr, cb, bm⟩ bm'
-    simp only [MsgObj.step] at this ⊢
-    rw [this]; exact SameButBitmap.refl _
-  | getFields => exact ⟨rfl, rfl, rfl⟩
+    simp only [MsgObj.step, pack_mk spec fs pr h1 cb cb' bm bm']; exact SameButBitmap.refl _
+  | getFields => exact ⟨rfl, rfl⟩
   | json =>
-    have := pack_bitmap_irrelevant spec ⟨fs, pr, cb, bm⟩ bm'
-    simp only [MsgObj.step, json_fst] at this ⊢
-    rw [this]; exact SameButBitmap.refl _
+    simp only [MsgObj.step, json_fst, pack_mk spec fs pr h1 cb cb' bm bm']; exact SameButBitmap.refl _
   | clone =>
-    have := pack_bitmap_irrelevant spec ⟨fs, pr, cb, bm⟩ bm'
-    simp only [MsgObj.step, clone_fst] at this ⊢
-    rw [this]; exact SameButBitmap.refl _
+    simp only [MsgObj.step, clone_fst, pack_mk spec fs pr h1 cb cb' bm bm']; exact SameButBitmap.refl _
   | describe =>
     simp only [MsgObj.step, MsgObj.describe, MsgObj.touchBitmap]
-    cases cb <;> exact ⟨rfl, rfl, rfl⟩
+    cases cb <;> cases cb' <;> simp [SameButBitmap, markId_of_contains h1]
 
-/-- every operation treats two messages that differ only in the bitmap object's bytes
-alike -/
-theorem step_same (spec : MsgSpec) (op : Op) {o o' : MsgObj} (h : SameButBitmap o o') :
+/-- every operation treats two messages that differ only in the bitmap object alike -/
+theorem step_same (spec : MsgSpec) (op : Op) {o o' : MsgObj} (h : SameButBitmap o o') (h1 : Marked1 o) :
     SameButBitmap (o.step spec op).1 (o'.step spec op).1 := by
-  rw [same_eq h]
   obtain ⟨fs, pr, cb, bm⟩ := o
-  exact step_same_mk spec op fs pr cb bm _
+  obtain ⟨fs', pr', cb', bm'⟩ := o'
+  obtain ⟨hf, hp⟩ := h
+  simp only at hf hp
+  subst hf; subst hp
+  exact step_same_mk spec op fs pr h1 cb cb' bm bm'
+
+/-! #### the bitmap field stays marked -/
+
+theorem scanInto_marked (spec : MsgSpec) (bm : Bitmap) (remaining : Nat) :
+    ∀ (i : Nat) (src : Bytes) (off : Nat) (fs : List (Nat × FieldObj)) (pr : List Nat),
+      pr.contains 1 = true → (MsgSpec.scanInto spec bm remaining i src off fs pr).2.contains 1 = true := by
+  induction remaining with
+  | zero => intro i src off fs pr h; simpa [MsgSpec.scanInto] using h
+  | succ n ih =>
+    intro i src off fs pr h
+    unfold MsgSpec.scanInto
+    split
+    · exact ih _ _ _ _ _ h
+    · split
+      · split
+        · exact h
+        · split
+          · exact h
+          · dsimp only
+            split
+            · apply ih
+              rw [markId_contains, h]; simp
+            · exact h
+      · exact ih _ _ _ _ _ h
+
+theorem unpackObj_marked (spec : MsgSpec) (b : Bytes) : Marked1 (spec.unpackObj b).1 := by
+  have hres : Marked1 (spec.unpackResidue b) := by
+    unfold MsgSpec.unpackResidue Marked1
+    split
+    · split
+      · rfl
+      · split
+        · exact scanInto_marked spec _ _ _ _ _ _ _ rfl
+        · rfl
+    · rfl
+  unfold MsgSpec.unpackObj
+  split
+  · unfold Marked1 MsgSpec.objOfMsg
+    simp only [List.contains_append, List.contains_cons, beq_self_eq_true, Bool.true_or, Bool.or_true]
+  · exact hres
+  · exact hres
+
+theorem pack_marked (spec : MsgSpec) (o : MsgObj) (h : Marked1 o) : Marked1 (o.pack spec).1 := by
+  obtain ⟨fs, pr, cb, bm⟩ := o
+  unfold Marked1 at h ⊢
+  simp only at h
+  cases cb <;> simp only [MsgObj.pack, MsgObj.touchBitmap, MsgObj.packOrd, markId_of_contains h] <;> exact h
+
+theorem jsonDecode_marked (spec : MsgSpec) (doc : List (Nat × Value)) :
+    ∀ o : MsgObj, Marked1 o → Marked1 (o.jsonDecode spec doc).1 := by
+  induction doc with
+  | nil => intro o h; exact h
+  | cons p rest ih =>
+    intro o h
+    obtain ⟨id, v⟩ := p
+    unfold MsgObj.jsonDecode
+    by_cases hid : id = 1
+    · subst hid
+      simp only [if_true]
+      cases v with
+      | bin d =>
+        apply ih
+        show (markId 1 o.present).contains 1 = true
+        rw [markId_contains]; simp
+      | str _ => exact h
+      | num _ => exact h
+      | hexv _ => exact h
+      | comp _ => exact h
+    · simp only [hid, if_false]
+      have hm : Marked1 (o.marshalField spec id v).1 := by
+        unfold MsgObj.marshalField
+        cases spec.fieldOf id with
+        | none => exact h
+        | some f =>
+          dsimp only
+          split
+          · show (markId id o.present).contains 1 = true
+            rw [markId_contains, h]; simp
+          · exact h
+      generalize o.marshalField spec id v = r at hm
+      obtain ⟨o', st⟩ := r
+      cases st with
+      | ok u => exact ih o' hm
+      | err => exact hm
+      | panic => exact hm
+
+/-- the bitmap field stays marked through every operation -/
+theorem marked_step (spec : MsgSpec) (o : MsgObj) (op : Op) (h : Marked1 o) : Marked1 (o.step spec op).1 := by
+  have hmark : ∀ id, (markId id o.present).contains 1 = true := by
+    intro id; rw [markId_contains, h]; simp
+  cases op with
+  | mti s =>
+    simp only [MsgObj.step, MsgObj.setField]
+    cases spec.fieldOf 0 with
+    | none => simpa using h
+    | some f => simpa [Marked1] using hmark 0
+  | setField id b =>
+    simp only [MsgObj.step, MsgObj.setField]
+    split
+    · exact hmark 1
+    · cases spec.fieldOf id with
+      | none => exact h
+      | some f => exact hmark id
+  | marshalField id v =>
+    simp only [MsgObj.step, MsgObj.marshalField]
+    cases spec.fieldOf id with
+    | none => exact h
+    | some f =>
+      dsimp only
+      split
+      · exact hmark id
+      · exact h
+  | jsonDecode doc => exact jsonDecode_marked spec doc o h
+  | unpack b => exact unpackObj_marked spec b
+  | unsetField id =>
+    simp only [MsgObj.step, MsgObj.unsetField]
+    split
+    · split
+      · exact h
+      · rename_i hne
+        show (o.present.filter (fun i => i != id)).contains 1 = true
+        rw [List.contains_iff_mem, List.mem_filter]
+        exact ⟨List.contains_iff_mem.mp h, by simpa using Ne.symm hne⟩
+    · exact h
+  | unsetPath id path =>
+    simp only [MsgObj.step, MsgObj.unsetPath, MsgObj.unsetField]
+    split
+    · split
+      · split
+        · exact h
+        · rename_i hne
+          show (o.present.filter (fun i => i != id)).contains 1 = true
+          rw [List.contains_iff_mem, List.mem_filter]
+          exact ⟨List.contains_iff_mem.mp h, by simpa using Ne.symm hne⟩
+      · cases spec.fieldOf id with
+        | none => exact h
+        | some f =>
+          dsimp only
+          cases f.unsetSubs (o.get id f) path <;> exact h
+    · exact h
+  | pack => exact pack_marked spec o h
+  | getFields => exact h
+  | json => simp only [MsgObj.step, json_fst]; exact pack_marked spec o h
+  | clone => simp only [MsgObj.step, clone_fst]; exact pack_marked spec o h
+  | describe =>
+    simp only [MsgObj.step, MsgObj.describe, MsgObj.touchBitmap]
+    split
+    · exact h
+    · exact hmark 1
+
+theorem marked_run (spec : MsgSpec) (h : List Op) : ∀ o : MsgObj, Marked1 o → Marked1 (MsgObj.run spec o h) := by
+  induction h with
+  | nil => intro o ho; exact ho
+  | cons op rest ih => intro o ho; exact ih _ (marked_step spec o op ho)
+
+theorem marked_newMsg (spec : MsgSpec) : Marked1 spec.newMsg := rfl
 
 theorem run_same (spec : MsgSpec) (later : List Op) :
-    ∀ {o o' : MsgObj}, SameButBitmap o o' →
-      SameButBitmap (MsgObj.run spec o later) (MsgObj.run spec o' later) := by
+    ∀ {o o' : MsgObj}, SameButBitmap o o' → Marked1 o →
+      SameButBitmap (MsgObj.run spec o later) (MsgObj.run spec o' later) ∧ Marked1 (MsgObj.run spec o later) := by
   induction later with
-  | nil => intro o o' h; exact h
-  | cons op rest ih => intro o o' h; exact ih (step_same spec op h)
+  | nil => intro o o' h h1; exact ⟨h, h1⟩
+  | cons op rest ih => intro o o' h h1; exact ih (step_same spec op h h1) (marked_step spec o op h1)
 
-/-- a read-only operation on a message whose bitmap is already cached changes at most the
-bytes of the bitmap object -/
-theorem readonly_state (spec : MsgSpec) (o : MsgObj) (op : Op) (hro : IsReadOnly op)
-    (hcb : o.cachedBitmap = true) : SameButBitmap o (o.step spec op).1 := by
-  have htouch : o.touchBitmap spec = o := by simp [MsgObj.touchBitmap, hcb]
+/-- a read-only operation changes at most the bitmap object (cached or not, its bytes) -/
+theorem readonly_state (spec : MsgSpec) (o : MsgObj) (op : Op) (hro : IsReadOnly op) (h1 : Marked1 o) :
+    SameButBitmap o (o.step spec op).1 := by
   have hpack : SameButBitmap o (o.pack spec).1 := by
-    unfold MsgObj.pack; rw [htouch]; exact ⟨rfl, rfl, rfl⟩
+    obtain ⟨fs, pr, cb, bm⟩ := o
+    unfold Marked1 at h1
+    simp only at h1
+    cases cb <;> simp [SameButBitmap, MsgObj.pack, MsgObj.touchBitmap, MsgObj.packOrd, markId_of_contains h1]
   cases op with
   | pack => exact hpack
   | json => simp only [MsgObj.step, json_fst]; exact hpack
   | clone => simp only [MsgObj.step, clone_fst]; exact hpack
-  | describe => simp only [MsgObj.step, MsgObj.describe, htouch]; exact SameButBitmap.refl o
+  | describe =>
+    obtain ⟨fs, pr, cb, bm⟩ := o
+    unfold Marked1 at h1
+    simp only at h1
+    cases cb <;> simp [SameButBitmap, MsgObj.step, MsgObj.describe, MsgObj.touchBitmap, markId_of_contains h1]
   | getFields => exact SameButBitmap.refl o
   | mti _ => exact absurd hro (by simp [IsReadOnly])
   | setField _ _ => exact absurd hro (by simp [IsReadOnly])
@@ -530,62 +702,83 @@ theorem readonly_state (spec : MsgSpec) (o : MsgObj) (op : Op) (hro : IsReadOnly
   | unsetField _ => exact absurd hro (by simp [IsReadOnly])
   | unsetPath _ _ => exact absurd hro (by simp [IsReadOnly])
 
-/-- the full-strength statement: Pack / MarshalJSON / Describe / Clone / GetFields never
-change what is observed afterwards -/
+/-- **Read-only operations are pure** (from any message in which the bitmap field is marked):
+Pack, MarshalJSON, Describe, Clone and GetFields change nothing that any later history
+observes through GetFields, values, Pack and JSON. -/
+theorem readonly_ops_pure_from (spec : MsgSpec) (o : MsgObj) (h1 : Marked1 o) (op : Op) (hro : IsReadOnly op)
+    (later : List Op) :
+    (MsgObj.run spec (o.step spec op).1 later).obs spec = (MsgObj.run spec o later).obs spec := by
+  have hr := run_same spec later (readonly_state spec o op hro h1) h1
+  exact obs_of_same spec hr.1 hr.2
+
+/-- the full-strength statement: at every point of every history, a read-only operation
+changes nothing that is observed afterwards (GetFields, values, Pack, JSON) -/
 def readonly_ops_pureStatement : Prop :=
-  ∀ (spec : MsgSpec) (o : MsgObj) (op : Op), IsReadOnly op →
-    ∀ later : List Op, (MsgObj.run spec (o.step spec op).1 later).obs spec = (MsgObj.run spec o later).obs spec
+  ∀ (spec : MsgSpec) (h : List Op) (op : Op), IsReadOnly op → ∀ later : List Op,
+    (MsgObj.run spec ((MsgObj.run spec spec.newMsg h).step spec op).1 later).obs spec =
+      (MsgObj.run spec (MsgObj.run spec spec.newMsg h) later).obs spec
 
-/-- **Read-only operations are pure** — on every message whose bitmap field has been
-materialised (it has packed, unpacked, been cloned, described or JSON-encoded before):
-Pack, MarshalJSON, Describe, Clone and GetFields change nothing that any later history can
-observe through GetFields, values, Pack and JSON. -/
-theorem readonly_ops_pure_partial (spec : MsgSpec) (o : MsgObj) (op : Op) (hro : IsReadOnly op)
-    (hcb : o.cachedBitmap = true) (later : List Op) :
-    (MsgObj.run spec (o.step spec op).1 later).obs spec = (MsgObj.run spec o later).obs spec :=
-  obs_of_same spec (run_same spec later (readonly_state spec o op hro hcb))
+/-- **Read-only operations are pure**, full strength: for every spec, every history, every
+read-only operation and every later history — no hypothesis. (Before the repair of KF9 the
+first Pack / MarshalJSON / Describe / Clone marked the bitmap field and so changed what
+GetFields reported.) -/
+theorem readonly_ops_pure : readonly_ops_pureStatement := by
+  intro spec h op hro later
+  exact readonly_ops_pure_from spec _ (marked_run spec h _ (marked_newMsg spec)) op hro later
 
-/-- … and on *every* message the packed bytes and the JSON are unaffected; the one thing
-the first of these operations changes is that the bitmap field (id 1) becomes marked. -/
-theorem readonly_ops_pack_json (spec : MsgSpec) (o : MsgObj) (op : Op) (hro : IsReadOnly op) :
-    ((o.step spec op).1.obs spec).packed = (o.obs spec).packed ∧
-    ((o.step spec op).1.obs spec).json = (o.obs spec).json ∧
-    (o.step spec op).1.fields = o.fields ∧
-    (∀ j, (o.step spec op).1.present.contains j = true → j = 1 ∨ o.present.contains j = true) := by
-  have hpp : ((o.pack spec).1).pack spec = o.pack spec := by
+/-! #### what `Describe` prints (KF10) -/
+
+def describedBitmap : Out → Bytes
+  | .described bm _ => bm
+  | _ => []
+
+def describedIds : Out → List Nat
+  | .described _ ids => ids
+  | _ => []
+
+/-- the field list Describe prints is not affected by a read-only operation either … -/
+theorem readonly_ops_describe_ids (spec : MsgSpec) (o : MsgObj) (h1 : Marked1 o) (op : Op) (hro : IsReadOnly op)
+    (later : List Op) :
+    describedIds ((MsgObj.run spec (o.step spec op).1 later).step spec .describe).2 =
+      describedIds ((MsgObj.run spec o later).step spec .describe).2 := by
+  obtain ⟨hs, hm⟩ := run_same spec later (readonly_state spec o op hro h1) h1
+  generalize MsgObj.run spec o later = a at hs hm
+  generalize MsgObj.run spec (o.step spec op).1 later = b at hs
+  obtain ⟨fs, pr, cb, bm⟩ := a
+  obtain ⟨fs', pr', cb', bm'⟩ := b
+  obtain ⟨hf, hp⟩ := hs
+  simp only at hf hp
+  subst hf; subst hp
+  unfold Marked1 at hm
+  simp only at hm
+  cases cb <;> cases cb' <;>
+    simp [MsgObj.step, MsgObj.describe, MsgObj.touchBitmap, describedIds, markId_of_contains hm]
+
+/-- … but its bitmap lines are: the full statement including everything Describe prints -/
+def readonly_ops_describeStatement : Prop :=
+  ∀ (spec : MsgSpec) (h : List Op) (op : Op), IsReadOnly op → ∀ later : List Op,
+    describedBitmap ((MsgObj.run spec ((MsgObj.run spec spec.newMsg h).step spec op).1 later).step spec .describe).2 =
+      describedBitmap ((MsgObj.run spec (MsgObj.run spec spec.newMsg h) later).step spec .describe).2
+
+/-- **KF10, what does hold.** On a message that has been packed since it was last written
+(its bitmap object is cached and holds what Pack computes), a read-only operation changes
+nothing at all — the state is the same, so Describe prints the same too. -/
+theorem readonly_ops_describe_partial (spec : MsgSpec) (o : MsgObj) (op : Op) (hro : IsReadOnly op)
+    (hcb : o.cachedBitmap = true) (hbm : (o.pack spec).1.bitmap = o.bitmap) :
+    (o.step spec op).1 = o := by
+  have hpack : (o.pack spec).1 = o := by
     obtain ⟨fs, pr, cb, bm⟩ := o
-    cases cb <;> rfl
-  have htp : (o.touchBitmap spec).pack spec = o.pack spec := by
-    obtain ⟨fs, pr, cb, bm⟩ := o
-    cases cb <;> rfl
-  have hpres : ∀ j, (o.touchBitmap spec).present.contains j = true → j = 1 ∨ o.present.contains j = true := by
-    intro j hj
-    unfold MsgObj.touchBitmap at hj
-    cases hc : o.cachedBitmap with
-    | true => simp only [hc, if_true] at hj; exact Or.inr hj
-    | false =>
-      simp only [hc, Bool.false_eq_true, if_false, markId_contains, Bool.or_eq_true, beq_iff_eq] at hj
-      exact hj
-  have hpk : ((o.pack spec).1.obs spec).packed = (o.obs spec).packed ∧
-      ((o.pack spec).1.obs spec).json = (o.obs spec).json ∧ (o.pack spec).1.fields = o.fields ∧
-      (∀ j, (o.pack spec).1.present.contains j = true → j = 1 ∨ o.present.contains j = true) := by
-    refine ⟨by simp only [MsgObj.obs, hpp], by simp only [MsgObj.obs, MsgObj.json, hpp], ?_, ?_⟩
-    · obtain ⟨fs, pr, cb, bm⟩ := o
-      cases cb <;> rfl
-    · intro j hj
-      apply hpres j
-      unfold MsgObj.pack MsgObj.packOrd at hj
-      exact hj
+    simp only at hcb
+    subst hcb
+    simp only [MsgObj.pack, MsgObj.touchBitmap, MsgObj.packOrd] at hbm ⊢
+    simp only [if_true] at hbm ⊢
+    rw [hbm]
   cases op with
-  | pack => exact hpk
-  | json => simp only [MsgObj.step, json_fst]; exact hpk
-  | clone => simp only [MsgObj.step, clone_fst]; exact hpk
-  | describe =>
-    simp only [MsgObj.step, MsgObj.describe]
-    refine ⟨by simp only [MsgObj.obs, htp], by simp only [MsgObj.obs, MsgObj.json, htp], ?_, hpres⟩
-    obtain ⟨fs, pr, cb, bm⟩ := o
-    cases cb <;> rfl
-  | getFields => exact ⟨rfl, rfl, rfl, fun j hj => Or.inr hj⟩
+  | pack => exact hpack
+  | json => simp only [MsgObj.step, json_fst]; exact hpack
+  | clone => simp only [MsgObj.step, clone_fst]; exact hpack
+  | describe => simp [MsgObj.step, MsgObj.describe, MsgObj.touchBitmap, hcb]
+  | getFields => rfl
   | mti _ => exact absurd hro (by simp [IsReadOnly])
   | setField _ _ => exact absurd hro (by simp [IsReadOnly])
   | marshalField _ _ => exact absurd hro (by simp [IsReadOnly])
@@ -657,10 +850,6 @@ theorem clone_content (spec : MsgSpec) (hs : spec.tagsOK = true) (o c : MsgObj)
   rw [hc, hobj]
   refine ⟨?_, hp.2⟩
   rw [hp.1, hr.1]
-  funext j
-  by_cases hj : j = 1
-  · subst hj; simp [AbsState.set, absOfMsg]
-  · simp [AbsState.set, hj]
 
 /-! ### caller memory -/
 
@@ -674,31 +863,17 @@ theorem pack_pad_leaves_caller_slice (sp : PrimSpec) (s : GoSlice) :
     (Pad.padMem sp.pad s sp.len).2 = s.arr ∧ (Pad.padMem sp.pad s sp.len).1 = sp.pad.pad s.data sp.len := by
   simp [Pad.padMem]
 
-/-! ### the first read-only operation is not pure: witnesses -/
+/-! ### what remains: Describe shows the bitmap object as it is (KF10) -/
 section Witness
 open ObjDemo
 
-/-- **Witness (known finding).** On a message that has only been populated, `GetFields`
-reports `[0]`; after one `Pack` it reports `[0, 1]`: Pack (like MarshalJSON, Describe,
-Clone, Bitmap()) marks the bitmap field as set when it first caches it. -/
-theorem readonly_ops_pure_witness : ¬ readonly_ops_pureStatement := by
+/-- **Witness (KF10, Describe shows a stale bitmap).** MTI and field 2 set: Describe prints an
+all-zero bitmap; after one Pack — a read-only operation — it prints the real one. Describe
+shows the bitmap object as the last Pack / Unpack left it. -/
+theorem describe_stale_bitmap_witness : ¬ readonly_ops_describeStatement := by
   intro h
-  have h1 := h spec (MsgObj.run spec spec.newMsg [.mti [48, 49, 48, 48]]) .pack trivial []
-  have h2 := congrArg Obs.ids h1
-  revert h2
-  decide
-
-def describedBitmap : Out → Bytes
-  | .described bm _ => bm
-  | _ => []
-
-/-- **Witness (Describe shows a stale bitmap).** Two messages with the same logical content
-— MTI and field 2 set — are described differently depending on whether Pack ran since the
-last write: Describe prints the bitmap object as the last Pack / Unpack left it, here all
-zero although field 2 is set. -/
-theorem describe_stale_bitmap_witness :
-    describedBitmap ((MsgObj.run spec spec.newMsg [.mti [48,49,48,48], .setField 2 [52]]).step spec .describe).2 ≠
-    describedBitmap ((MsgObj.run spec spec.newMsg [.mti [48,49,48,48], .setField 2 [52], .pack]).step spec .describe).2 := by
+  have h1 := h spec [.mti [48, 49, 48, 48], .setField 2 [52]] .pack trivial []
+  revert h1
   decide
 
 end Witness
@@ -718,8 +893,16 @@ example : DistinctTargets [.mti [48,49,48,48], .setField 2 [52]] := by
   simp [DistinctTargets, popTarget]
 example : ([Op.mti [48,49,48,48], .setField 2 [52]]).Perm [.setField 2 [52], .mti [48,49,48,48]] :=
   List.Perm.swap _ _ _
--- a message whose bitmap is cached (hypothesis of `readonly_ops_pure_partial`), with content
-example : (MsgObj.run spec spec.newMsg (populate ++ [.pack])).cachedBitmap = true := by decide
+-- repaired behaviour (KF9): GetFields lists the bitmap field before and after the first Pack
+example : (MsgObj.run spec spec.newMsg [.mti [48, 49, 48, 48]]).sortedIds = [0, 1] ∧
+    ((MsgObj.run spec spec.newMsg [.mti [48, 49, 48, 48]]).step spec .pack).1.sortedIds = [0, 1] := by decide
+-- … and UnsetField(1) keeps it listed while dropping the cached bitmap object
+example : (MsgObj.run spec spec.newMsg [.pack, .unsetField 1]).sortedIds = [1] ∧
+    (MsgObj.run spec spec.newMsg [.pack, .unsetField 1]).cachedBitmap = false := by decide
+-- a message packed since its last write (hypotheses of `readonly_ops_describe_partial`), with content
+example : (MsgObj.run spec spec.newMsg (populate ++ [.pack])).cachedBitmap = true ∧
+    ((MsgObj.run spec spec.newMsg (populate ++ [.pack])).pack spec).1.bitmap =
+      (MsgObj.run spec spec.newMsg (populate ++ [.pack])).bitmap := by decide
 example : (match ((MsgObj.run spec spec.newMsg populate).pack spec).2 with | .ok _ => true | _ => false) = true := by
   decide
 -- a clone exists and packs to the same bytes as its original
